@@ -1,6 +1,7 @@
 (* run/<Cxx>: every recorded run replayed against the model and judged by the monitors. *)
 From Coq Require Import String List Bool Arith ZArith.
 From Verif Require Import Base.ListX Base.Json Base.Free Pub.Events Pub.Replay Pub.Monitors Pub.SideEffect Pub.BaseActor Pub.Util Pub.Value Pub.EffectSpec Pub.Fed Pub.Soc Base.Time Pub.DeliverySpec Pub.CreateSpec.
+From Verif Require Import Proofs.FedProofs.
 Require Import Run.observed.
 Import ListNotations.
 Open Scope string_scope.
@@ -285,6 +286,96 @@ Definition effects_bad := Eval vm_compute in
 Definition effects_stats := Eval vm_compute in
   (length (filter (fun u => match posted_value u with Some v => c16_type (type_name v) | None => false end) observed),
    length (filter (fun u => existsb (fun p => match fst p with EDb op _ => String.eqb op "Update" | _ => false end) (u_trace u)) observed)).
+(* where the implementation's OBSERVABLE behaviour leaves the model's: stored values, deliveries, application callbacks, responses *)
+Definition observable (e : ev) : bool :=
+  match e with
+  | EDb op _ => is_mod op
+  | EBatchDeliver _ _ | EApp _ _ | EWriteHeader _ | ESetHeader _ _ | EWrite _ => true
+  | _ => false
+  end.
+Definition ev_summary (e : ev) : string :=
+  match e with
+  | EDb op [a] => (op ++ " " ++ match a with JStr s => s | _ => id_str a end)%string
+  | EDb op _ => op
+  | EBatchDeliver p r => ("BatchDeliver " ++ type_name p ++ " to " ++ String.concat "," r)%string
+  | EApp n _ => ("callback " ++ n)%string
+  | EWriteHeader n => "status"
+  | ESetHeader k v => ("header " ++ k)%string
+  | EWrite _ => "body"
+  | ELock i => ("Lock " ++ i)%string | EUnlock i => ("Unlock " ++ i)%string
+  | ENewTransport _ => "NewTransport" | EDeref i => ("Dereference " ++ i)%string | ENow => "Now"
+  end.
+Definition diverge_verdict (u : run) : nat * string :=
+  match check_run u with
+  | VAgree => (0, "")
+  | VResult h r => (1, ("result: specification " ++ r ++ ", implementation " ++ u_result u)%string)
+  | VMismatch pos e =>
+      match nth_error (u_trace u) pos with
+      | Some (e', _) => if observable e || observable e' then (1, ("specification: " ++ ev_summary e ++ "; implementation: " ++ ev_summary e')%string) else (0, "")
+      | None => if String.eqb (u_result u) "panic" then (1, ("the implementation panics where the specification continues with " ++ ev_summary e)%string)
+                else if observable e then (1, ("specification: " ++ ev_summary e ++ "; implementation: stops")%string) else (0, "")
+      end
+  | VExtra pos =>
+      if existsb (fun p => observable (fst p)) (skipn pos (u_trace u)) then (1, "the implementation goes on where the specification has finished") else (0, "")
+  end.
+Definition diverge_bad := Eval vm_compute in
+  filter (fun x => Nat.eqb (fst (snd x)) 1) (map (fun p => (fst p, diverge_verdict (snd p))) (combine (seq 0 (length observed)) observed)).
+(* C04 on a recorded inbox run: the part of the trace in which the default callback ran *)
+Fixpoint drop_until (f : ev -> bool) (tr : list (ev * ans)) : option (list (ev * ans)) :=
+  match tr with [] => None | (e, x) :: r => if f e then Some r else drop_until f r end.
+Fixpoint take_until (f : ev -> bool) (tr : list (ev * ans)) : list (ev * ans) :=
+  match tr with [] => [] | (e, x) :: r => if f e then [] else (e, x) :: take_until f r end.
+Definition callback_segment (tr : list (ev * ans)) : option (list (ev * ans)) :=
+  match drop_until (fun e => match e with EApp n _ => String.eqb n "FederatingCallbacks" | _ => false end) tr with
+  | Some r => Some (take_until (fun e => match e with EDb op _ => String.eqb op "Exists" | EWriteHeader _ => true | _ => false end) r)
+  | None => None
+  end.
+Definition inbox_activity (u : run) : option json :=
+  match r_body (u_req u) with BJson j => match to_type j with Ok v => Some v | _ => None end | BNotJson => None end.
+Definition mod_events (seg : list (ev * ans)) : list (string * json) :=
+  flat_map (fun p => match fst p with EDb op [a] => if String.eqb op "Create" || String.eqb op "Update" || String.eqb op "Delete" then [(op, a)] else [] | _ => [] end) seg.
+Definition is_wrapped_app (e : ev) : bool := match e with EApp n _ => String.prefix "Wrapped:" n | _ => false end.
+Definition fed_verdict (u : run) : nat * string :=
+  if negb (String.eqb (u_entry u) "postinbox") then (0, "") else
+  match inbox_activity u, callback_segment (u_trace u) with
+  | Some a, Some seg =>
+      let ty := type_name a in
+      let ok200 := existsb (fun p => match fst p with EWriteHeader n => Nat.eqb n 200 | _ => false end) (u_trace u) in
+      if mem ty (c_fed_other (u_cfg u)) then
+        (if forallb (fun p => quiet_inbox (fst p)) seg then (0, "") else (1, "an 'other' callback did not replace the default effect"))
+      else if negb (mem ty fed_defaults) then (0, "") else
+      (* the wrapped callback comes last *)
+      let wl : nat * string := match drop_until is_wrapped_app seg with
+      | Some after => if existsb (fun p => observable (fst p)) after then (1, "something was changed or sent after the wrapped application callback") else (0, "")
+      | None => (0, "")
+      end in if Nat.eqb (fst wl) 1 then wl else
+      if String.eqb ty "Like" || String.eqb ty "Announce" then
+        match get_id a with
+        | Ok id => match first_fail estate (own_step (if String.eqb ty "Like" then "likes" else "shares") id) e0 seg 0 with
+                   | inr _ => (1, "an object this server does not own was modified, or an owned one not to the documented value")
+                   | inl _ => (0, "") end
+        | _ => (0, "") end
+      else if String.eqb ty "Add" || String.eqb ty "Remove" then
+        match ids_of "object" a with
+        | Ok ids => match first_fail estate (eff_step (if String.eqb ty "Add" then KAdd ids else KRemove ids)) e0 seg 0 with
+                    | inr _ => (1, "a target collection this server does not own was modified, or an owned one not to the documented value")
+                    | inl _ => (0, "") end
+        | _ => (0, "") end
+      else if String.eqb ty "Create" || String.eqb ty "Update" || String.eqb ty "Delete" then
+        let want := match ids_of "object" a with Ok l => l | _ => [] end in
+        let got := map (fun t => match snd t with JStr s => s | v => id_str v end) (mod_events seg) in
+        if negb (forallb (fun t => String.eqb (fst t) ty) (mod_events seg)) then (1, "an operation other than the activity's own was applied") else
+        if negb (is_prefix got want) then (1, "stored / removed something other than the named objects") else
+        if ok200 && negb (list_eqb got want) then (1, "accepted, but not every named object was stored / removed") else (0, "")
+      else if String.eqb ty "Follow" then
+        if Nat.eqb (c_on_follow (u_cfg u)) 0 && negb (forallb (fun p => no_change_no_send (fst p)) seg) then (1, "OnFollow = do nothing, yet something was changed or sent") else
+        if Nat.eqb (c_on_follow (u_cfg u)) 2 && negb (forallb (fun p => no_update (fst p)) seg) then (1, "OnFollow = reject, yet something was updated") else (0, "")
+      else (0, "")
+  | _, _ => (0, "")
+  end.
+Definition fed_bad := Eval vm_compute in
+  filter (fun x => Nat.eqb (fst (snd x)) 1) (map (fun p => (fst p, fed_verdict (snd p))) (combine (seq 0 (length observed)) observed)).
+
 Definition n_observed := Eval vm_compute in length observed.
 Print replay_bad.
 Print lock_bad.
@@ -300,4 +391,6 @@ Print history_bad.
 Print order_stats.
 Print effects_bad.
 Print effects_stats.
+Print fed_bad.
+Print diverge_bad.
 Print n_observed.
